@@ -23,7 +23,7 @@ CLAIMS = {
  "C12": ("SubscribeWithReplay contracts: resume from the loaded offset, load errors returned, catch-up callback saves after the handler and only for matching decodable events, live wrapper saves bus.lastOffset read under storeMu after the handler, never OffsetOldest. One genuine defect is recorded as a known finding (events appended during a streaming catch-up are skipped).", "5 C12"),
  "C13": ("Failure-containment contracts of persistEvent (no panic, error handler exactly once with event/type/non-nil error, no retry, lastOffset only on success, timeout context descends and is cancelled).", "5 C13"),
  "C15": ("EventType/eventTypeNameOf functional contracts (TypeNamer wins, otherwise reflect name), and at-call assertions that persistEvent, SubscribeWithReplay and RegisterUpcast pass exactly evName(typeOf(T)); state messages' EventTypeName constants.", "5 C15"),
- "C16": ("hasCycleDFS against reachability in the upcaster graph (sound when true; when false every newly visited node is closed under edges, which at top level gives no path by the closed-set lemma), wouldCreateCycle == reach(target, source) exactly, register rejects exactly on the four causes and inserts under the same write lock as the check, lock invariant 'graph acyclic' re-established by register (edge-addition lemma), clear, clearType and established by the constructor. The graph lemmas are SMT axioms whose statements are proved in Lean 4/Mathlib (lemmas/lean/GraphReach.lean). apply's loop never follows a type twice (appliedTypes) - termination itself (of apply and of the DFS) is not verified: the technique has no variants here.", "5 C16"),
+ "C16": ("hasCycleDFS against reachability in the upcaster graph (sound when true; when false every newly visited node is closed under edges, which at top level gives no path by the closed-set lemma), wouldCreateCycle == reach(target, source) exactly, register rejects exactly on the four causes and inserts under the same write lock as the check, lock invariant 'graph acyclic' re-established by register (edge-addition lemma), clear, clearType and established by the constructor. The graph lemmas are SMT axioms whose statements are proved in Lean 4/Mathlib (lemmas/lean/GraphReach.lean). Termination: apply's loop and the DFS recursion carry a variant (the number of types that have an upcaster and are not yet marked), proved to decrease at every back edge / recursive call and to be bounded below; the set of types with an upcaster is finite by a lock invariant (established by the constructor, re-proved by register/clear/clearType), finite-set cardinality axioms proved in Lean (lemmas/lean/FiniteMeasure.lean). User upcast functions are assumed to return.", "5 C16"),
  "C17": ("upcastRegistry.apply against the recursive chain specification (chainD/chainT/chainOK with first-registered upcaster), failure returns the original, ReplayWithUpcast callback passes composed data/type with offset and timestamp unchanged and calls the error handler once, typed upcaster closure = json(f(unjson(data))) with a fresh decode target.", "5 C17"),
  "C18": ("Materializer fold: Apply/applyChange/applyControl/typedCollectionApplier contracts over the Store[T] map laws (Set/Delete/Clear/Get as map update with frame), CompositeKey injectivity lemma, lastOffset updated exactly on success; the two-session clause follows from the per-event step contract by M7.", "5 C18"),
  "C19": ("Rejection half: Apply never panics on arbitrary bytes (no-panic obligations of the whole Apply call tree), and an event that cannot be applied returns an error with collections and lastOffset unchanged (frame postconditions). Round-trip half: the five helper constructors and newChangeMessage build a message with exactly the given key, operation and the JSON encodings of value and old value (separate encodings, fresh message); that decoding an encoding yields the value again is the assumed json law.", "5 C19"),
